@@ -101,7 +101,11 @@ func genAttrNum(c *hc.Ctx) string {
 }
 
 func genColor(c *hc.Ctx) string {
-	return []string{"red", "none", "#f00", "#ff0000", "#ff000080", "rgb(1,2,3)", "rgba(1,2,3,0.5)", "rgb(10%,20%,30%)", "currentColor", "url(#g1)", "url(#nope)", "url(", "#", "#12", "rgb(", "rgb(1,2)", "transparent", "inherit", "", "hsl(1,2%,3%)", "#ggg"}[c.Intn(21)]
+	if c.Chance(0.45) {
+		// url(...) references: well-formed, dangling, and every truncated / mis-quoted form
+		return []string{"url(#g1)", "url('#g1')", `url(&quot;#g1&quot;)`, "url(#nope)", "url(", "url(#", "url(#)", "url('#)", "url('#')", `url("#"`, "url(#a", "url(x#)", "url()", "url('')", "url(')", "url(#a')", "url( #g1)", "url(##)", "url('#g1)", "url(#g1", "url)", "url(#g1))", " url(#g1)", "url(\"#)", "url( #)", "url('#g1')"}[c.Intn(26)]
+	}
+	return []string{"red", "none", "#f00", "#ff0000", "#ff000080", "rgb(1,2,3)", "rgba(1,2,3,0.5)", "rgb(10%,20%,30%)", "currentColor", "#", "#12", "rgb(", "rgb(1,2)", "transparent", "inherit", "", "hsl(1,2%,3%)", "#ggg"}[c.Intn(18)]
 }
 
 func genTransform(c *hc.Ctx) string {
@@ -147,6 +151,9 @@ func genStyleAttrs(c *hc.Ctx) string {
 			sb.WriteString(fmt.Sprintf(` stroke-dashoffset="%s" stroke-miterlimit="%s"`, genAttrNum(c), genAttrNum(c)))
 		case 11:
 			sb.WriteString(fmt.Sprintf(` font-size="%s" font-family="%s"`, genAttrNum(c), []string{"serif", "sans-serif", "x", ""}[c.Intn(4)]))
+			if c.Chance(0.5) {
+				sb.WriteString(fmt.Sprintf(` marker-%s="%s"`, []string{"start", "mid", "end"}[c.Intn(3)], genColor(c)))
+			}
 		}
 	}
 	return sb.String()
@@ -204,6 +211,9 @@ func genDoc(c *hc.Ctx) string {
 		sb.WriteString(`<?xml version="1.0" encoding="UTF-8"?>` + "\n")
 	}
 	sb.WriteString(`<svg xmlns="http://www.w3.org/2000/svg"`)
+	if c.Chance(0.15) {
+		sb.WriteString(fmt.Sprintf(` %s="%s"`, []string{"fill", "stroke"}[c.Intn(2)], genColor(c)))
+	}
 	if c.Chance(0.8) {
 		sb.WriteString(fmt.Sprintf(` width="%s" height="%s"`, genAttrNum(c), genAttrNum(c)))
 	}
@@ -304,6 +314,8 @@ func panicClass(doc string) string {
 					cls = "whitespace-only-path-data"
 				case strings.Contains(msg, "nil pointer") && svgf == "(*svgParser).drawShape" && rejected:
 					cls = "rejected-path-data-nil-deref"
+				case strings.Contains(msg, "slice bounds out of range") && inner == "(*svgParser).parseUrlID":
+					cls = "parseUrlID-slice-bounds"
 				default:
 					if len(msg) > 50 {
 						msg = msg[:50]
